@@ -3,6 +3,7 @@ import Mieru.Proofs.Fragment
 import Mieru.Proofs.TcpSessionWire
 import Mieru.Gen.Consts
 import Mieru.Gen.Arith
+import Mieru.Gen.Wire
 /-!
 # C01 — TCP transport: every byte delivered exactly once, in order, to the right session
 
@@ -390,6 +391,78 @@ theorem fragment_size_matches_code (mtu : Int) (rot : Nat) :
     simp [Gen.Arith.maxFragmentSize, Gen.Arith.maxFragmentSizeInternal,
       Gen.Arith.buildLowEntropyParams_sourceBytesPerChunk, Gen.Arith.buildLowEntropyParams_halfMaskOnes,
       Gen.maxPDU, Gen.lowEntropyChunkLen, Gen.streamTransport] <;> omega
+
+/-! ## Tie (T): the statements of session.go / underlay_stream.go the session model rests on,
+    regenerated from the current source on every run (`tools/goextract/wire.go` → `Mieru.Gen.Wire`) -/
+
+open Mieru.TcpSession in
+/-- **`writeChunk`'s fragment count is the model's**: the arithmetic `nFragment := 1; if len(b) >
+    fragmentSize { nFragment = (len(b)-1)/fragmentSize + 1 }`, translated from the current source,
+    gives exactly the number of segments the model's `writeChunk` queues, for every non-empty chunk
+    and every low-entropy decision; and each fragment has `min(fragmentSize, len(ptr))` bytes. -/
+theorem fragment_count_matches_code (seq : Nat) (le : Option LE) (b : Bytes) (hb : b ≠ []) :
+    (((writeChunk seq le b).length : Nat) : Int) = Gen.Wire.writeChunkNFragment b.length (fragSize le) ∧
+    ∀ rest : Bytes, rest ≠ [] →
+      (((pieces (fragSize le) rest.length rest).head?.map (·.length)).getD 0 : Int)
+        = Gen.Wire.writeChunkPartLen (fragSize le) rest.length := by
+  have hf := fragSize_pos le
+  have hn : 1 ≤ b.length := List.length_pos_iff.mpr hb
+  constructor
+  · rw [writeChunk, numberFrags_length, pieces_length _ hf _ _ (Nat.le_refl _)]
+    unfold Gen.Wire.writeChunkNFragment
+    by_cases h : (b.length : Int) > (fragSize le : Int)
+    · rw [if_pos h]
+      have e2 : b.length + fragSize le - 1 = (b.length - 1) + fragSize le := by omega
+      rw [e2, Nat.add_div_right _ hf, Int.tdiv_eq_ediv_of_nonneg (by omega)]
+      have : ((b.length : Int) - 1) = ((b.length - 1 : Nat) : Int) := by omega
+      rw [this, ← Int.natCast_ediv]
+      simp
+    · rw [if_neg h]
+      rw [Nat.div_eq_of_lt_le (k := 1) (by omega) (by omega)]
+      rfl
+  · intro rest hr
+    have hpos : 0 < rest.length := List.length_pos_iff.mpr hr
+    cases hl : rest.length with
+    | zero => omega
+    | succ n =>
+      simp only [pieces, hr, if_false, List.head?_cons, Option.map_some, Option.getD_some, List.length_take,
+        Gen.Wire.writeChunkPartLen]
+      omega
+
+/-- **The statements the model transcribes, as they stand in the current source.**
+    `Session.Write` piggybacks iff `!sendLowEntropy && len(b) <= MaxSessionOpenPayload` and queues a
+    COPY of the caller's bytes (`make` + `copy`, never the caller's slice); `writeChunk` copies each
+    part, numbers fragments `nFragment-1 … 0` and takes one sequence number per fragment;
+    `Session.Read` cuts the unread tail at `copied` (the bytes taken from THIS segment), never at the
+    call's running total; `closeWithError` builds the close request when the session is ATTACHED or
+    ESTABLISHED (`closeFlushes`); `inputData` insists on `seq == streamNextRecv` and advances by one;
+    `writeOneSegment` lays a data segment out as metadata, padding 1, payload (low-entropy encoded in
+    place), padding 2, and a session segment as metadata, payload, padding. -/
+theorem session_code_facts :
+    Gen.Wire.writePiggybackCondition = "!sendLowEntropy && len(b) <= MaxSessionOpenPayload" ∧
+    Gen.Wire.writeOpenPayloadAssignments = ["make([]byte, len(b))"] ∧
+    Gen.Wire.writeCopyCalls = ["copy(seg.payload, b)"] ∧
+    Gen.Wire.writeChunkPayloadField = "make([]byte, partLen)" ∧
+    Gen.Wire.writeChunkCopyCalls = ["copy(seg.payload, part)"] ∧
+    Gen.Wire.writeChunkLoop = "i := nFragment - 1; i >= 0; i--" ∧
+    Gen.Wire.writeChunkFragmentField = "uint8(i)" ∧
+    Gen.Wire.writeChunkSeqField = "s.nextSend.Load()" ∧
+    Gen.Wire.writeChunkNextSendCalls = ["s.nextSend.Load()", "s.nextSend.Add(1)"] ∧
+    Gen.Wire.readUnreadBufAssignments = ["nil", "s.unreadBuf[copied:]", "seg.payload[copied:]"] ∧
+    Gen.Wire.readCopiedAssignments = ["copy(b[n:], s.unreadBuf)", "copy(b[n:], seg.payload)"] ∧
+    Gen.Wire.closeFlushCondition = "s.isState(sessionAttached) || s.isState(sessionEstablished)" ∧
+    (TcpSession.closeFlushes .attached = true ∧ TcpSession.closeFlushes .established = true ∧
+      TcpSession.closeFlushes .init = false ∧ TcpSession.closeFlushes .closed = false) ∧
+    Gen.Wire.inputDataOrderCheck = "expected := s.streamNextRecv.Load(); seq != expected" ∧
+    Gen.Wire.inputDataAdvance = "s.streamNextRecv.Add(1)" ∧
+    Gen.Wire.writeOneSegmentSessionParts = ["t.send.Encrypt(dataToSend[:0], plaintextMetadata)",
+      "t.send.Encrypt(dataToSend[offset:offset], seg.payload)", "copy(dataToSend[offset:], padding)",
+      "t.writeWithPossibleFragment(dataToSend)"] ∧
+    Gen.Wire.writeOneSegmentDataParts = ["t.send.Encrypt(dataToSend[:0], plaintextMetadata)",
+      "copy(dataToSend[offset:], padding1)", "t.send.Encrypt(dataToSend[offset:offset], seg.payload)",
+      "encodeLowEntropyEncryptedPayload(dataToSend[offset:offset+encryptedPayloadLen], das)",
+      "copy(dataToSend[offset:], encryptedPayload)", "copy(dataToSend[offset:], padding2)",
+      "t.conn.Write(dataToSend)"] := by decide
 
 /-! ## Non-vacuity of the composed theorems: a concrete connection
 
